@@ -10,6 +10,7 @@ import (
 	"log"
 	"net/http"
 	"net/http/httptest"
+	"os"
 	"regexp"
 	"runtime"
 	"strings"
@@ -31,6 +32,68 @@ type Input struct {
 	Body   []byte // request body / stdio line (nil: none)
 	// extra request headers (garbage header tests)
 	Hdr map[string]string
+	// JSON text of the id an answer is expected to carry ("" = none expected): a hint that lets the legacy SSE and stdio
+	// peers recognise the end of the exchange by the answer itself (a request goroutine writes its answer last) instead of
+	// by a census of goroutines; when the answer does not show up they fall back to the census
+	WantID string
+}
+
+// hintCeiling: how long the peers wait for the expected answer before they fall back to the census of goroutines; after
+// hintMaxMisses answers that did not come the hint is no longer used on that server (a server that has stopped answering a
+// whole class of requests would otherwise cost the ceiling for each of them).
+const hintCeiling = 300 * time.Millisecond
+const hintMaxMisses = 12
+
+func isAnswerTo(frame string, idJSON string) bool {
+	var m struct {
+		ID     json.RawMessage `json:"id"`
+		Method *string         `json:"method"`
+	}
+	return json.Unmarshal([]byte(frame), &m) == nil && m.Method == nil && string(m.ID) == idJSON
+}
+
+// takeThrough waits (event-based, with a ceiling) for the response carrying the id and returns the frames up to and
+// including it; ok=false: it did not come — nothing is consumed.
+func takeThrough(mu *sync.Mutex, frames *[]string, notify, eof chan struct{}, idJSON string, ceiling time.Duration) ([]string, bool) {
+	deadline := time.After(ceiling)
+	seen := 0
+	for {
+		mu.Lock()
+		for i := seen; i < len(*frames); i++ {
+			if isAnswerTo((*frames)[i], idJSON) {
+				out := append([]string{}, (*frames)[:i+1]...)
+				*frames = append([]string{}, (*frames)[i+1:]...)
+				mu.Unlock()
+				return out, true
+			}
+		}
+		seen = len(*frames)
+		mu.Unlock()
+		select {
+		case <-notify:
+		case <-eof:
+			return nil, false
+		case <-deadline:
+			return nil, false
+		}
+	}
+}
+
+// answered: one of the frames is a response carrying this id
+func answered(frames []string, idJSON string) bool {
+	if idJSON == "" {
+		return false
+	}
+	for _, f := range frames {
+		var m struct {
+			ID     json.RawMessage `json:"id"`
+			Method *string         `json:"method"`
+		}
+		if json.Unmarshal([]byte(f), &m) == nil && m.Method == nil && string(m.ID) == idJSON {
+			return true
+		}
+	}
+	return false
 }
 
 // Observed is what the reference peer saw.
@@ -90,27 +153,47 @@ type Target interface {
 var inflightRe = regexp.MustCompile(`created by trpc\.group/trpc-go/trpc-mcp-go\.\(\*(SSEServer\)\.handle(Request|Notification)Message|SSEServer\)\.handleNotification|stdioTransport\)\.processInputStream|stdioServerInternal\)\.HandleNotification)`)
 var libRe = regexp.MustCompile(`trpc\.group/trpc-go/trpc-mcp-go[./(]`)
 
+var stackBuf = sync.Pool{New: func() any { b := make([]byte, 256<<10); return &b }}
+
 func stacks() []string {
-	buf := make([]byte, 1<<20)
+	bp := stackBuf.Get().(*[]byte)
+	defer stackBuf.Put(bp)
 	for {
-		n := runtime.Stack(buf, true)
-		if n < len(buf) {
-			return strings.Split(string(buf[:n]), "\n\n")
+		n := runtime.Stack(*bp, true)
+		if n < len(*bp) {
+			return strings.Split(string((*bp)[:n]), "\n\n")
 		}
-		buf = make([]byte, 2*len(buf))
+		*bp = make([]byte, 2*len(*bp))
 	}
 }
 
-// Inflight counts goroutines spawned per request by the legacy SSE / stdio servers that have not finished.
-func Inflight() int {
+var inflightSSERe = regexp.MustCompile(`created by trpc\.group/trpc-go/trpc-mcp-go\.\(\*SSEServer\)\.handle(Request|Notification)Message|created by trpc\.group/trpc-go/trpc-mcp-go\.\(\*SSEServer\)\.handleNotification`)
+var inflightStdioRe = regexp.MustCompile(`created by trpc\.group/trpc-go/trpc-mcp-go\.\(\*(stdioTransport\)\.processInputStream|stdioServerInternal\)\.HandleNotification)`)
+
+// InflightOf counts goroutines spawned per request by the legacy SSE server ("sse"), the stdio server ("stdio") or both ("")
+// that have not finished.
+func InflightOf(kind string) int {
 	n := 0
 	for _, g := range stacks() {
-		if inflightRe.MatchString(g) {
-			n++
+		switch kind {
+		case "sse":
+			if inflightSSERe.MatchString(g) {
+				n++
+			}
+		case "stdio":
+			if inflightStdioRe.MatchString(g) {
+				n++
+			}
+		default:
+			if inflightRe.MatchString(g) {
+				n++
+			}
 		}
 	}
 	return n
 }
+
+func Inflight() int { return InflightOf("") }
 
 // LibGoroutines counts goroutines with a library frame.
 func LibGoroutines() int {
@@ -124,26 +207,40 @@ func LibGoroutines() int {
 }
 
 // stuck: request goroutines that were still running when a wait gave up — they are taken for lost (a server that has them
-// is abandoned) and no later wait waits for them again.
-var stuck int
+// is abandoned) and no later wait waits for them again. Per kind ("" = both kinds together).
+var stuckMu sync.Mutex
+var stuckOf = map[string]int{}
 
-// waitQuiet waits until no per-request library goroutine is in flight ("" = quiet).
-func waitQuiet(ceiling time.Duration) string {
+func setStuck(kind string, n int) { stuckMu.Lock(); stuckOf[kind] = n; stuckMu.Unlock() }
+func getStuck(kind string) int {
+	stuckMu.Lock()
+	defer stuckMu.Unlock()
+	if kind == "" {
+		return stuckOf[""] + stuckOf["sse"] + stuckOf["stdio"]
+	}
+	return stuckOf[kind] + stuckOf[""]
+}
+
+// waitQuiet waits until no per-request library goroutine (of any kind) is in flight ("" = quiet).
+func waitQuiet(ceiling time.Duration) string { return waitQuietOf("", ceiling) }
+
+// waitQuietOf: the same for one server kind — legacy SSE and stdio servers may then run side by side.
+func waitQuietOf(kind string, ceiling time.Duration) string {
 	deadline := time.Now().Add(ceiling)
 	for i := 0; ; i++ {
-		if Inflight() <= stuck {
+		if InflightOf(kind) <= getStuck(kind) {
 			return ""
 		}
 		if time.Now().After(deadline) {
-			n := Inflight()
-			why := fmt.Sprintf("%d request goroutine(s) still running after %v", n-stuck, ceiling)
-			stuck = n
+			n := InflightOf(kind)
+			why := fmt.Sprintf("%d request goroutine(s) still running after %v", n-getStuck(kind), ceiling)
+			setStuck(kind, n)
 			return why
 		}
-		if i < 20 {
+		if i < 2 {
 			runtime.Gosched()
 		} else {
-			time.Sleep(200 * time.Microsecond)
+			time.Sleep(100 * time.Microsecond) // polling a census (each poll dumps every stack): not too often
 		}
 	}
 }
@@ -661,6 +758,15 @@ type sseTarget struct {
 	peer *ssePeer
 	plog *panicLog
 	seq  int
+	// expected answers that did not come (see hintMaxMisses)
+	misses int
+}
+
+func newQuietTestServer(h http.Handler) *httptest.Server {
+	ts := httptest.NewUnstartedServer(h)
+	ts.Config.ErrorLog = hk.QuietStdLog()
+	ts.Start()
+	return ts
 }
 
 func NewSSE(reg *Registry) (Target, error) {
@@ -769,15 +875,31 @@ func (t *sseTarget) Exchange(in Input) Observed {
 			o.Body, o.Dup = v, dup
 		}
 	}
-	// whatever the request goroutine emits is queued before it ends; the sentinel's answer is queued after that
-	if why := waitQuiet(5 * time.Second); why != "" {
-		o.Problems = append(o.Problems, why)
-		o.Dead = true // a request is stuck: going on would cost the ceiling again and again
+	var frames []string
+	done := false
+	if in.WantID != "" && t.misses < hintMaxMisses && st == 202 {
+		// the answer itself ends the exchange: it is the last thing the request goroutine queues
+		if fr, ok := takeThrough(&t.peer.mu, &t.peer.frames, t.peer.notify, t.peer.eof, in.WantID, hintCeiling); ok {
+			frames, done = fr, true
+		} else {
+			t.misses++
+			if os.Getenv("VERIF_RPC_TIMING") != "" {
+				fmt.Fprintf(os.Stderr, "hint miss sse: want %s body %.200s\n", in.WantID, in.Body)
+			}
+		}
 	}
-	frames, why := t.sentinel(t.peer)
-	if why != "" {
-		o.Problems = append(o.Problems, why)
-		o.Dead = true
+	if !done {
+		// whatever the request goroutine emits is queued before it ends; the sentinel's answer is queued after that
+		if why := waitQuietOf("sse", 5*time.Second); why != "" {
+			o.Problems = append(o.Problems, why)
+			o.Dead = true // a request is stuck: going on would cost the ceiling again and again
+		}
+		more, why := t.sentinel(t.peer)
+		if why != "" {
+			o.Problems = append(o.Problems, why)
+			o.Dead = true
+		}
+		frames = append(frames, more...)
 	}
 	for _, f := range frames {
 		v, dup, err := Canon([]byte(f))
@@ -936,10 +1058,11 @@ func (p *stdioPeer) takeUntil(sentinel string, ceiling time.Duration) ([]string,
 }
 
 type stdioTarget struct {
-	reg  *Registry
-	srv  *mcp.StdioServer
-	peer *stdioPeer
-	seq  int
+	reg    *Registry
+	srv    *mcp.StdioServer
+	peer   *stdioPeer
+	seq    int
+	misses int // expected answers that did not come (see hintMaxMisses)
 }
 
 func NewStdio(reg *Registry) (Target, error) {
@@ -978,20 +1101,42 @@ func (t *stdioTarget) Exchange(in Input) Observed {
 		o.Dead = true
 		return o
 	}
+	if in.WantID != "" && t.misses < hintMaxMisses {
+		// the answer itself ends the exchange: a request goroutine writes its answer last
+		if fr, ok := takeThrough(&t.peer.mu, &t.peer.lines, t.peer.notify, t.peer.eof, in.WantID, hintCeiling); ok {
+			for _, f := range fr {
+				v, dup, err := Canon([]byte(f))
+				if err != nil {
+					o.Problems = append(o.Problems, "a line is not one JSON value: "+err.Error())
+					continue
+				}
+				o.Frames = append(o.Frames, v)
+				o.Dup = o.Dup || dup
+			}
+			return o
+		}
+		t.misses++
+		if os.Getenv("VERIF_RPC_TIMING") != "" {
+			fmt.Fprintf(os.Stderr, "hint miss stdio: want %s body %.200s\n", in.WantID, in.Body)
+		}
+	}
 	a, why := t.sentinel(t.peer)
 	if why != "" {
 		o.Problems = append(o.Problems, why)
 		o.Dead = true
 		return o
 	}
-	if why := waitQuiet(5 * time.Second); why != "" {
-		o.Problems = append(o.Problems, why)
-		o.Dead = true // a request is stuck: going on would cost the ceiling again and again
-	}
-	b, why := t.sentinel(t.peer)
-	if why != "" {
-		o.Problems = append(o.Problems, why)
-		o.Dead = true
+	var b []string
+	{
+		if why := waitQuietOf("stdio", 5*time.Second); why != "" {
+			o.Problems = append(o.Problems, why)
+			o.Dead = true // a request is stuck: going on would cost the ceiling again and again
+		}
+		b, why = t.sentinel(t.peer)
+		if why != "" {
+			o.Problems = append(o.Problems, why)
+			o.Dead = true
+		}
 	}
 	for _, f := range append(a, b...) {
 		v, dup, err := Canon([]byte(f))
@@ -1007,8 +1152,8 @@ func (t *stdioTarget) Exchange(in Input) Observed {
 
 // StdioLine: what `processMessage` does with the line before JSON decoding (TrimSpace); ok=false: nothing to decode.
 func StdioLine(b []byte) ([]byte, bool) {
-	s := strings.TrimSpace(string(b))
-	return []byte(s), s != ""
+	t := bytes.TrimSpace(b) // (a sub-slice: no copy of a multi-megabyte line)
+	return t, len(t) > 0
 }
 
 func (t *stdioTarget) ModelOp(in Input) map[string]any {
